@@ -614,7 +614,8 @@ func NearValid(j int) string {
 		t := []string{"n.(num)", "s.(string)", "an.([]num)", "x.(any)", "ax.([]num)", "mx.({}num)", "ax[0].(any)", "x.(num).(num)", "mn.a.(num)", "x.(nums)"}[k%10]
 		bad = fmt.Sprintf("r7 := %s\nprint r7", t)
 	case 8: // procedures and nothing used as values
-		t := []string{"r8 := cls", "r8 := (print 1)", "print (cls)", "r8 := [1 (cls)]", "r8 := {a:(cls)}", "an = an + [(clear)]", "x = (sleep 0)", "func p0\n    print 0\nend\nr8 := p0\nprint r8", "func p1\n    print 0\nend\nx = (p1)", "n = n + (p2)\nfunc p2\n    print 0\nend"}[k%10]
+		t := []string{"r8 := cls\nprint r8", "r8 := (print 1)\nprint r8", "print (cls)", "r8 := [1 (cls)]\nprint r8 (len r8)", "r8 := {a:(cls)}\nprint r8", "an = an + [(clear)]", "x = (sleep 0)", "func p0\n    print 0\nend\nr8 := p0\nprint r8", "func p1\n    print 0\nend\nx = (p1)", "n = n + (p2)\nfunc p2\n    print 0\nend",
+			"r8 := [(print 1)]\nprint r8", "print [(cls)] {a:(clear)}", "func p3\n    print 0\nend\nr8 := [(p3) (p3)]\nprint r8 (typeof r8)", "r8 := [[(cls)]]\nprint r8", "ax = [1 (cls)]", "mx = {a:(print 1)}", "for e8 := range [(cls)]\n    print e8\nend", "print (len [(cls)]) (typeof {a:(cls)})"}[k%18]
 		bad = t
 	case 9: // unary operators
 		bad = fmt.Sprintf("r9 := %s%s\nprint r9", []string{"-", "!"}[k%2], []string{"s", "b", "an", "mn", "x", "n", "as", "ax"}[(k/2)%8])
@@ -625,7 +626,11 @@ func NearValid(j int) string {
 		t := []string{"an = [1 \"a\"]", "an = as", "as = [s n]", "mn = {a:\"s\"}", "mn = ms", "ax = an", "mx = mn", "aan = [an as]", "aan = [[1] [\"a\"]]", "ax = [an][0]", "mx = [mn][0]", "ax = an[:1]", "ax = an + an", "an = ax", "mn = mx", "aan = [ax]", "ax = aan", "an = [x]", "mn = {a:x}", "as = ax"}[k%20]
 		bad = t
 	case 11: // declarations
-		t := []string{"n := 4", "n:string", "q1:num\nq1:string\nprint q1", "q2 := q2\nprint q2", "q3 := [q3]\nprint q3", "q4:nums\nprint q4", "q5:[]\nprint q5", "q6:{}\nprint q6", "q7 := {a:1 a:2}\nprint q7", "func n\n    print 1\nend", "func g1 p:num p:string\n    print p\nend\ng1 1 \"a\"", "on key\n    print 1\nend\non key\n    print 2\nend", "on key k:num\n    print k\nend", "on down x1:num\n    print x1\nend", "on nosuch\n    print 1\nend", "print q8\nq8 := 1", "if true\n    q9 := 1\n    print q9\nend\nprint q9", "for q10 := range 2\n    print q10\nend\nprint q10", "func g2\n    print q11\nend\ng2\nif true\n    q11 := 1\n    print q11\nend", "_ := 1"}[k%20]
+		t := []string{"n := 4", "n:string", "q1:num\nq1:string\nprint q1", "q2 := q2\nprint q2", "q3 := [q3]\nprint q3", "q4:nums\nprint q4", "q5:[]\nprint q5", "q6:{}\nprint q6", "q7 := {a:1 a:2}\nprint q7", "func n\n    print 1\nend", "func g1 p:num p:string\n    print p\nend\ng1 1 \"a\"", "on key\n    print 1\nend\non key\n    print 2\nend", "on key k:num\n    print k\nend", "on down x1:num\n    print x1\nend", "on nosuch\n    print 1\nend", "print q8\nq8 := 1", "if true\n    q9 := 1\n    print q9\nend\nprint q9", "for q10 := range 2\n    print q10\nend\nprint q10", "func g2\n    print q11\nend\ng2\nif true\n    q11 := 1\n    print q11\nend", "_ := 1",
+			// the predefined globals err, errmsg and pi as names of parameters, locals and loop variables
+			"func g3 err:num\n    print err\n    n = str2num \"1x\"\n    print err n\nend\ng3 1", "for errmsg := range 3\n    n = str2num \"1x\"\n    print errmsg n\nend", "if true\n    err := \"s\"\n    b = str2bool \"maybe\"\n    print err b\nend",
+			"func g4 pi:string\n    print pi\nend\ng4 \"3\"", "on key err:string\n    n = str2num err\n    print n err\nend", "func g5:num errmsg:[]num\n    return (str2num \"x\") + errmsg[0]\nend\nprint (g5 [1])", "while true\n    errmsg := 5\n    n = str2num \"\"\n    print errmsg\n    break\nend",
+			"err := true", "errmsg := 5", "pi := 3", "func err\n    print 1\nend", "err = 1\nprint err", "errmsg = true\nprint errmsg"}[k%33]
 		bad = t
 	case 12: // control flow
 		t := []string{"break", "return", "return 1", "func h1:num\n    print 1\nend\nprint (h1)", "func h2:num\n    if true\n        return 1\n    end\nend\nprint (h2)", "func h3\n    return 1\nend\nh3", "on key\n    return 1\nend", "while true\n    break\n    print 1\nend", "func h4:num\n    return 1\n    print 2\nend\nprint (h4)", "if true\n    break\nend", "func h5:num\n    while true\n        return 1\n    end\nend\nprint (h5)", "func h6:num\n    for range 3\n        return 1\n    end\nend\nprint (h6)"}[k%12]
